@@ -36,8 +36,9 @@ pub open spec fn delta_of(d: Direction) -> (int, int) {
         Direction::South => (-1, 0), Direction::SouthWest => (-1, -1), Direction::West => (0, -1), Direction::NorthWest => (1, -1),
     }
 }
+pub open spec fn wrap_u8(x: int) -> u8 { (((x % 256) + 256) % 256) as u8 }
 pub open spec fn add_delta(s: Square, dr: int, df: int) -> Square {
-    Square { rank: ((s.rank as i16 + dr as i16) as i16) as u8, file: ((s.file as i16 + df as i16) as i16) as u8 }
+    Square { rank: wrap_u8(s.rank as int + dr), file: wrap_u8(s.file as int + df) }
 }
 pub open spec fn fwd(c: Color) -> int { match c { Color::White => 1, Color::Black => -1 } }
 pub open spec fn start_rank(c: Color) -> int { match c { Color::White => 1, Color::Black => 6 } }
